@@ -458,6 +458,10 @@ def history_cases(ctx):
         cs = [{"var": rng.choice(OUTS), "hedges": [], "term": rng.choice(TERMS)} for _ in range(k)]
         cs[-1]["hedges"] = rng.choice(HL)
         steps = [{"degree": rng.choice(pool), "impl": rng.choice(IMPLS)} for _ in range(rng.choice([2, 2, 3]))]
+        if rng.random() < 0.5:
+            # the enabled flags of the output variables are flipped between two triggers of the same loaded rule
+            for st in steps:
+                st["outputs_enabled"] = {o: rng.random() < 0.6 for o in OUTS}
         yield {"mode": "history", "how": rng.choice(["trigger", "activate", "two-blocks"]), "conclusions": cs, "steps": steps}
 
 
@@ -466,14 +470,19 @@ def history_observe(case):
     rule = fl.Rule.create(text_of(case), e)
     with np.errstate(all="ignore"):
         try:
+            def flags(st):
+                for o in e.output_variables:
+                    o.enabled = st.get("outputs_enabled", {}).get(o.name, True)
             if case["how"] == "trigger":
                 for st in case["steps"]:
+                    flags(st)
                     rule.activation_degree = float(st["degree"])
                     rule.trigger(getattr(fl, st["impl"])())
             elif case["how"] == "activate":
                 rb = fl.RuleBlock("rb", activation=fl.General(), rules=[rule])
                 e.rule_blocks.append(rb)
                 for st in case["steps"]:
+                    flags(st)
                     rb.implication = getattr(fl, st["impl"])()
                     e.input_variables[0].value = float(st["degree"])
                     rb.activate()
@@ -483,6 +492,7 @@ def history_observe(case):
                                                       rules=[rule]))
                 # the blocks are activated in order with the input changed in between (Engine.process without the clearing)
                 for rb, st in zip(e.rule_blocks, case["steps"]):
+                    flags(st)
                     e.input_variables[0].value = float(st["degree"])
                     rb.activate()
             return {o.name: [(t.term.name, [float(v) for v in np.atleast_1d(t.degree)], type(t.implication).__name__)
@@ -497,7 +507,8 @@ def history_oracle(case):
         return False, f"triggering '{text_of(case)}' repeatedly raised {ob['raised']}"
     want = {o: [] for o in OUTS}
     for st in case["steps"]:
-        one = expected({"mode": "trigger", "conclusions": case["conclusions"], "degree": st["degree"]})
+        one = expected({"mode": "trigger", "conclusions": case["conclusions"], "degree": st["degree"],
+                        "outputs_enabled": st.get("outputs_enabled", {})})
         for o in OUTS:
             want[o] += [(t, ds, st["impl"]) for t, ds, _ in one[o]]
     if not same(ob, want):
